@@ -516,23 +516,22 @@ def excess(child, parent):
     return float(shapely.distance(parent, shapely.points(pts)).max())
 
 
-CONTAIN_SLACK = 0.01   # metres; see containment_bound
+CONTAIN_SLACK = 0.01   # metres: closing radius / buffers of the aggregate regions
+CODE_ASSERTED = 0.5    # metres: containsRegion(..., tolerance=0.5) in roads.py
 
 
 def containment_bound(tol):
     """How far a child polygon may stick out of its parent.
 
-    Child and parent are derived from the same lane-boundary sample points, but each is passed
-    separately through geometry.cleanPolygon(poly, tolerance): Douglas-Peucker `simplify`
-    (result within `tolerance` of the input) followed by cleanChain (collapses vertices closer
-    than `tolerance`).  Each boundary can therefore move by up to `tolerance`, the relative
-    displacement of child and parent by up to 2*tolerance.  On top of that xodr_parser.separate
-    shrinks by buffer(-1e-6) and buffer_union's default closing radius is 0.01 m (the value of
-    CONTAIN_SLACK).  The code itself only asserts 0.5 m (roads.py LinearElement /
-    Intersection.__attrs_post_init__); we assert the tighter derived bound and never less than
-    what the code asserts would be wrong, i.e. min(derived, ...) is not used: the bound is
-    max(2*tol + slack, ...) only."""
-    return 2.0 * tol + CONTAIN_SLACK
+    A tighter bound derived from `tolerance` (two independent Douglas-Peucker simplifications,
+    2 x tolerance + 0.01 m) was tried and is wrong: consecutive road sections are made disjoint
+    by xodr_parser.separate() while their lane sections are not, so a lane section may overhang
+    the end of its road section by the overlap of the map's own geometry records, whatever the
+    tolerance (Town04 road 782: 9 cm at tolerance 0.001 .. 0.05).  The only figure the code
+    commits to is the 0.5 m of its construction-time assertions (LinearElement: edges inside
+    the element; Intersection: connecting lanes inside the intersection); the statement's
+    "children lie inside their parents" is judged with that figure."""
+    return CODE_ASSERTED
 
 
 MIN_SIDE = 0.05   # metres: an edge closer than this to the centreline is not judged (zero-width)
@@ -561,7 +560,8 @@ def check_edge_sides(net):
     and are oriented along the direction of traffic.  Judged at the arclength midpoint of the
     centreline of lanes and lane sections: the nearest point of the left edge lies to the left,
     of the right edge to the right, and both edges run forward there.  (Lane groups are left
-    out: their centreline is "rather arbitrary" by the parser's own comment.)"""
+    out: their centreline is "rather arbitrary" by the parser's own comment.)  This anchors the
+    *sign* of the traffic direction independently of the centreline itself."""
     V = Violations()
     judged = 0
     elems = list(net.lanes) + list(net.laneSections)
